@@ -1,3 +1,5 @@
 #!/bin/bash
 # dev helper: run the quick check of the targeted property against each seeded defect
+rm -rf /verif/.build/harness-snap && cp -r /verif/harness /verif/.build/harness-snap
+export VERIF_HARNESS=/verif/.build/harness-snap
 for n in "$@"; do python3 /verif/bin/seeded.py detect $n --tier quick >> /verif/.build/dev/detect.log 2>&1; done
